@@ -57,6 +57,10 @@ def cases(tier, seed):
     for i, opts in enumerate([['-2'], ['-4'], ['-b'], ['-l', 'warn'], ['-2', '-b']]):
         for (a, b) in ([('terrapin', 'clean'), ('rsa1024', 'clean')] if tier == 'quick' else list(itertools.permutations(['terrapin', 'clean', 'rsa1024', 'gex1024', 'gex2048-openssh'], 2))):
             cs.append({'kind': 'seq', 'targets': [a, b], 'threads': 1, 'fmt': 'json' if i % 2 else 'text', 'opts': opts})
+    # a target that ends without a single finding ("good"), then a target sharing its algorithms: nothing the first scan did to the tables may show on the second
+    for fmt in ('json', 'text'):
+        for th in (1, 2):
+            cs.append({'kind': 'seq', 'targets': ['good-only', 'good-only', 'warn-only'], 'threads': th, 'fmt': fmt})
     # the same server listed twice (same line again, around another target)
     for i, (a, b) in enumerate([('clean', 'rsa1024'), ('terrapin', 'clean'), ('gex1024', 'openssh-new')] if tier == 'quick' else list(itertools.permutations(['clean', 'rsa1024', 'terrapin', 'gex1024'], 2))):
         for th in (1, 2):
